@@ -51,6 +51,7 @@ type OpEngine struct {
 	W *spec.World
 
 	nodes    []*Node
+	thresholds *[]int
 	bypass   *ssa.Function
 	Findings []Finding
 	// statistics
